@@ -3,7 +3,7 @@
 import json, os, shutil, sys, glob
 sid, name = sys.argv[1], sys.argv[2]
 caught = sys.argv[3:]
-src = '/tmp/seed/out/%s' % sid
+src = (os.environ.get('SEEDOUT') or '/tmp/seed/out') + '/%s' % sid
 dst = '/verif/seeded/%s' % name
 os.makedirs(dst, exist_ok=True)
 for f in glob.glob(src + '/*'):
